@@ -1832,6 +1832,8 @@ def analyse_tu(eng, cfg):
     spec = Spec(laws, cfg)
     n = 0
     ops = set()
+    skipped = []
+    from .. import common
     for f in irrules.gch_roots(eng):
         if not is_public(f):
             continue
@@ -1839,7 +1841,12 @@ def analyse_tu(eng, cfg):
             continue
         n += 1
         ops.add('%s(%s)' % (spec.cur['bn'], ', '.join(spec.cur['kinds'])))
-        laws.walk(f, lambda: LawRule(laws, spec))
+        try:
+            laws.walk(f, lambda: LawRule(laws, spec))
+        except common.AnalysisBroken:
+            # too many paths for one operation: nothing is concluded about it (the floors of the
+            # check catch a collapse of coverage)
+            skipped.append('%s(%s)' % (spec.cur['bn'], ', '.join(spec.cur['kinds'])))
     control = None
     if cfg.elem == 'NM' and cfg.std == 'c++17' and not cfg.defines and cfg.sizet == 'u64':
         # negative control on every run: against a specification that is off by one everywhere
@@ -1854,5 +1861,5 @@ def analyse_tu(eng, cfg):
     return {'reports': list(spec.reports.values()), 'functions': n, 'decided': spec.decided, 'control': control,
             'undecided_paths': spec.undecided, 'undecided_ops': spec.undecided_ops,
             'placed': spec.placed, 'unplaced': spec.unplaced, 'ledgered': spec.ledgered, 'unplaced_ops': spec.unplaced_ops,
-            'operations': sorted(ops), 'laws': laws.stats,
+            'operations': sorted(ops), 'laws': laws.stats, 'skipped_operations': skipped,
             'law_functions': sorted(base_name(eng.oracle.pretty.get(k, k)) for k, v in laws.memo.items() if v is not None)}
